@@ -150,6 +150,10 @@ func runC15(c *core.Ctx) core.Meta {
 		}
 	})
 
+	// R15.9 a handled message leaves its port
+	st9 := c.Rule("R15.9", "a message the reorder buffer looked at and reported progress for is taken off its port: from PeekIncoming (message present) no path of a handler reaches `return true` without RetrieveIncoming on the same port (callees followed); a message left at the head is handled again on the next tick (a request forwarded twice, a response attached twice) and blocks the port", 2)
+	checkPeekedHandledConsumed(c, st9, "R15.9", p, "the same message is handled again on the next tick")
+
 	// R15.8 a restart empties each port
 	st8 := c.Rule("R15.8", "a restart discards every request that was handed to the buffer before it: each drain loop of the reorder buffer (a loop that only takes messages off a port) serves one port and is left only where the retrieved message is nil, so the top port and the bottom port are each emptied completely. Requests left in the top port are accepted after the restart and their responses reach the requester although they were discarded", 1)
 	checkDrainLoops(c, st8, "R15.8", p, "requests that waited in the top port survive the restart, are sent to the lower level and answered after the flush was acknowledged")
